@@ -163,6 +163,7 @@ class Agent:
         if pol.kind == "partial" and rows and r > 1:
             j = max(1, min(pol.k, r - 1))
             rows[-1] = rows[-1][:j]
+            self.flags.add("bulk:partial-row")
         for row in rows:
             out.extend(row)
         if r >= 2:
